@@ -328,8 +328,32 @@ class C11Session(Session):
         return self._twin_mirror()
 
     # ---------------------------------------------------------------------------
+    def _observe(self, world):
+        """the public observers named by the property must work on, and not disturb, a consistent forest"""
+        before = forest_digest(world)
+        for i in world.colls()[:6]:
+            c = world.objs[i]
+            try:
+                with contextlib.redirect_stdout(io.StringIO()):
+                    txt = c.describe(format="type+label", return_string=True)
+                    n_all = len(c.children_all)
+            except Exception as e:
+                return ("observer.describe", f"describe() raised {type(e).__name__} on a consistent forest")
+            # one line for the collection itself + one per descendant (max_elems=10 per level not exceeded here)
+            if all(len(getattr(x, "_children", [])) <= 10 for x in [c] + _flatten(c)):
+                if len(txt.splitlines()) != 1 + n_all:
+                    return ("observer.describe", f"describe() shows {len(txt.splitlines()) - 1} entries, "
+                            f"children_all has {n_all}")
+        if forest_digest(world) != before:
+            return ("observer.mutates", "describe()/children_all changed the forest")
+        return None
+
     def _check(self, world, op, outcome, var=None):
         errs = forest_errors(world)
+        if not errs and self.cfg.get("observe", True):
+            o = self._observe(world)
+            if o:
+                errs = [o]
         if errs:
             code, detail = errs[0]
             raise Violation(
@@ -456,6 +480,7 @@ class Sim:
             "max_variants": rng.choice([0, 4, 8, 16, 64]) if poisons else 0,
             "twin_mode": "rebuild" if rng.random() < 0.1 else "mirror",
             "p_override": rng.choice([0.2, 0.5, 0.8]),
+            "observe": rng.random() < 0.5,
         }
 
     def new_world_spec(self, rng, cfg):
